@@ -121,7 +121,9 @@ fn eval_arc(cx: f32, cy: f32, r: f32, start: f32, sweep: f32, ctx: u8) -> Result
         other => return bad("leading-line_to", format!("first op must be LineTo(start point), got {:?}", other)),
     };
     let sp = (c.0 + rr * s.cos(), c.1 + rr * s.sin());
-    if dist(p0, sp) > tol_r.max(1e-3 * rr) {
+    // the starting point is not approximated: it is (x + r cos start, y + r sin start) to the
+    // precision of f32 sines (the 0.5% belongs to the curve between its end points)
+    if dist(p0, sp) > 4e-6 * (c.0.abs() + c.1.abs() + rr) + 1e-30 {
         return bad("start-point", format!("leading LineTo goes to {:?}, arc start is {:?}", p0, sp));
     }
     let mut cur = p0;
@@ -362,6 +364,30 @@ impl Check for C20 {
                                 match eval_arc(0., 0., r, st, sw, ctx) {
                                     Ok(h) => l.outcome(h),
                                     Err(v) => run.report(3, v),
+                                }
+                            }
+                        }
+                    }
+                }
+            });
+        }
+        // start angles of many turns (exactly representable, with sweeps that keep the sums exact)
+        {
+            let bigs = [1000.0f32, 4096.0, 65536.0, 100000.0, -32768.0];
+            run.bound("start angles of many turns", format!("start angles {:?} x sweeps {{0.5, -0.25, 2, 7}} x radii {{1, 100}} x 2 builder contexts", bigs));
+            run.seq(|l| {
+                for &st in &bigs {
+                    for sw in [0.5f32, -0.25, 2.0, 7.0] {
+                        for r in [1.0f32, 100.0] {
+                            for ctx in [0u8, 1] {
+                                l.states += 1;
+                                l.transitions += 1;
+                                l.traces += 1;
+                                l.evals += 1;
+                                l.nontrivial += 1;
+                                match eval_arc(5., -3., r, st, sw, ctx) {
+                                    Ok(h) => l.outcome(h),
+                                    Err(v) => run.report(4, v),
                                 }
                             }
                         }
